@@ -332,7 +332,8 @@ def run_check(pid, tier, seed, replay=None):
             tie_ok = rc == 0
             obligations.append(("Tie/%s.v compiles: cfg_ok items hold of the regenerated configuration and the closed corollaries follow" % pid, tie_ok, out[-2500:] if rc else None))
             for grp in getattr(mod, "LEAF", []):
-                g = info.get("leaf", {}).get("groups", {}).get(grp, {})
+                # a Tie file is named after the translator group it is about (Tie/Leaf_build.v is a second file about Leaf_note)
+                g = info.get("leaf", {}).get("groups", {}).get({"Leaf_build": "Leaf_note"}.get(grp, grp), {})
                 rc, out = make(["Tie/%s.vo" % grp]) if g.get("ok") else (1, g.get("reason") or info.get("leaf", {}).get("reason") or "not translated")
                 obligations.append(("Tie/%s.v compiles: the function bodies translated from the current source by tools/extract_leaf.py equal the model's definitions" % grp,
                                     rc == 0, out[-1500:] if rc else None))
